@@ -288,18 +288,8 @@ def idem_rule(ctx: Ctx) -> None:
     r = ctx.rule("R14.sext", "immediate reduction is idempotent (a k-bit sign/zero extension)")
     for cn, (attr, param, width, signed) in IMM_FORMATS.items():
         c = m.cls(cn)
-        init = m.method(c, "__init__", own=True)
-        val = None
-        for n in init.node.body:
-            if isinstance(n, ast.Assign) and isinstance(n.targets[0], ast.Attribute) and n.targets[0].attr == attr \
-                    and isinstance(n.targets[0].value, ast.Name) and n.targets[0].value.id == init.params[0]:
-                val = n.value
-        if val is None:
-            raise AnalysisError(f"anchor vanished: {cn}.__init__ assignment of self.{attr}")
-        try:
-            got = Evaluator({param: Form.var(param)}, Folder(m, init.module, c)).ev(val)
-        except Inconclusive as exc:
-            raise AnalysisError(f"R14.sext: {cn}.{attr} is outside the bit-slice domain: {exc}")
+        from ..immform import stored_imm
+        init, got, val = stored_imm(m, c, attr, param, "R14.sext")
         ok = any(got == Form.field(param, 0, k, signed=s) for k in range(1, 33) for s in (True, False)) or got == Form.var(param)
         r.check(ok, f"{cn}.{attr}", init.loc(val), f"{cn} stores {attr} = {got.describe()}, which is not a k-bit sign/zero extension: "
                 "re-assembling the printed value would store a different immediate")
